@@ -472,8 +472,9 @@ func (fc *funcContext) instName(inst typeparams.Instance) string {
 		return objName
 	}
 	fc.pkgCtx.DeclareDCEDep(inst.Object, inst.TNest, inst.TArgs)
-	label := inst.TypeParamsString(` /* `, ` */`)
-	return fmt.Sprintf("%s[%d%s]", objName, fc.pkgCtx.instanceSet.ID(inst), label)
+	// The type arguments can contain "*/" (in a struct tag), which would end the comment.
+	label := strings.ReplaceAll(inst.TypeParamsString(``, ``), "*/", "<star>/")
+	return fmt.Sprintf("%s[%d /* %s */]", objName, fc.pkgCtx.instanceSet.ID(inst), label)
 }
 
 // methodName returns a JS identifier (specifically, object property name)
